@@ -360,6 +360,13 @@ def check_C08(run):
             scen[ty] += F.fam_sweep(g, "C08", ty, [(8, 1), (7, 2)], (0, 4), family="sweepU", arrow=True)
             scen[ty] += F.fam_sweep(g, "C08", ty, [(3, 1), (4, 2), (5, 4)], (0, 4), fn="gsisx")
     run.conform("sweep", scen, ["C08.", "C07."], timeout=5, tv_env={"MODE": "light"})
+    # 64-bit index build with the bundled BLAS (value word smaller than the index word for single precision)
+    g64 = Gen(run.seed * 1000 + 864)
+    if run.tier == "quick":
+        scen64 = {"s": F.fam_sweep(g64, "C08", "s", [(3, 1)], (0, 4)) + F.fam_sweep(g64, "C08", "s", [(8, 1)], (0, 4), family="sweepU", arrow=True)}
+    else:
+        scen64 = {ty: F.fam_sweep(g64, "C08", ty, [(3, 1), (4, 2), (5, 4)], (0, 4)) + F.fam_sweep(g64, "C08", ty, [(8, 1)], (0, 4), family="sweepU", arrow=True) for ty in ("s", "d", "z", "c")}
+    run.conform("sweep_i64", scen64, ["C08.", "C07."], variant="v1", timeout=5, tv_env={"MODE": "light", "BITWISE": "all"})
     # size query: lwork = -1 changes nothing but info / mem_usage
     gq = Gen(run.seed * 1000 + 88)
     types = QUICK_TYPES if run.tier == "quick" else FULL_TYPES
